@@ -2,9 +2,87 @@
    and splits.  Statements only; proofs in Proofs/SseProofs.v, SseSpec.v. *)
 From Coq Require Import Init.Byte.
 From Hio Require Import Base.Prelude Model.HttpLine Model.Chunk Model.Sse
-  Proofs.HttpLineProofs Proofs.ChunkProofs Proofs.SseProofs.
+  Proofs.HttpLineProofs Proofs.ChunkProofs Proofs.ChunkRoundtrip Proofs.SseProofs Proofs.SseSpec.
 
+(* sse_spec (Model/Sse.v) is the WHATWG "interpreting an event stream"
+   algorithm run over the WHOLE byte stream: lines end in CR LF, CR or LF (any
+   mix); comment, field/value with one leading space removed, event/data/id
+   (ignored when it contains NUL)/retry (ASCII digits only) fields, dispatch on
+   a blank line unless the data buffer is empty, trailing LF of the data
+   removed, last-event-id buffer and retry tracked.  It shares only the field
+   name constants and byte helpers with the model of EventSource. *)
+
+(* Main theorem.  For every byte stream and every split of it into reads, if
+   the parser did not reject the stream (see C15_only_long_lines_fail), the
+   events it delivered, in order, with id, name and data, the last event id and
+   the retry value are exactly those of the specification on the concatenation. *)
+Theorem C15_events_exact : forall reads s b os,
+  feeds sse_stage sse_start reads = (Live s b, os) ->
+  (somes os, s_id (snd s), s_retry (snd s)) = sse_spec (concat reads).
+Proof. exact sse_matches_spec. Qed.
+Print Assumptions C15_events_exact.
+
+(* Full fragmentation independence (also of the unconsumed bytes, the pending
+   partial event and the failure). *)
 Theorem C15_fragmentation : forall reads,
   feeds sse_stage sse_start reads = feed sse_stage sse_start (concat reads).
 Proof. exact sse_feeds_concat. Qed.
 Print Assumptions C15_fragmentation.
+
+(* The only way a stream is rejected is LineTooLong (an HTTPException), and
+   never for streams of at most MAX_LINE_SIZE + 1 bytes. *)
+Theorem C15_only_long_lines_fail :
+  (forall reads k os, feeds sse_stage sse_start reads = (Dead k, os) -> k = HTTPExc) /\
+  (forall reads, (lenN (concat reads) <= max_line + 1)%N ->
+     exists s b os, feeds sse_stage sse_start reads = (Live s b, os)).
+Proof. split; [exact sse_fails_only_http|exact sse_short_never_fails]. Qed.
+Print Assumptions C15_only_long_lines_fail.
+
+(* Inside chunked transfer coding (Respondent: every data chunk is appended to
+   the body and the event parser stepped): for every well-formed chunked
+   encoding of a stream -- any chunk boundaries, any size spelling, extensions,
+   trailers -- read in any fragmentation, the events are those of the stream. *)
+Theorem C15_chunked : forall reads cs zeros lastext trs tail r,
+  Forall wf_chunk cs -> zeros_ok zeros -> ext_text_ok lastext ->
+  (lenN (zeros ++ lastext) <= max_line)%N ->
+  Forall wf_trailer trs -> length trs <= max_headers ->
+  concat reads = encode_chunked cs zeros lastext trs ++ tail ->
+  sse_over_chunked reads = Some r ->
+  r = sse_spec (concat (map e_data cs)).
+Proof. exact sse_chunked_encoded. Qed.
+Print Assumptions C15_chunked.
+
+(* ... and for any byte stream that the chunk decoder accepts so far. *)
+Theorem C15_chunked_any_wire : forall reads cst b os r,
+  feeds chunk_stage (Live CSize []) reads = (Live cst b, os) ->
+  sse_over_chunked reads = Some r ->
+  r = sse_spec (body_of (somes os)).
+Proof. exact sse_chunked_matches_spec. Qed.
+Print Assumptions C15_chunked_any_wire.
+
+(* Non-vacuity.  The stream
+     id: 1 CRLF event: a CRLF data: x CRLF data: y CRLF CRLF
+     : c LF data LF LF
+     retry: 007 CR id CR data:  two CR CR
+     retry: +5 LF event: dropped LF LF data: tail
+   read byte by byte: three events -- (1, a, "x\ny"), (1, "", "") [empty data is
+   dispatched: D36], ("", "", " two") -- last id "", retry 7 (+5 ignored: D37),
+   "event: dropped" block without data not dispatched, unterminated tail pending. *)
+Definition ex_stream : bytes := of_bytes
+  [x69;x64;x3a;x20;x31;x0d;x0a; x65;x76;x65;x6e;x74;x3a;x20;x61;x0d;x0a;
+   x64;x61;x74;x61;x3a;x20;x78;x0d;x0a; x64;x61;x74;x61;x3a;x20;x79;x0d;x0a; x0d;x0a;
+   x3a;x20;x63;x0a; x64;x61;x74;x61;x0a; x0a;
+   x72;x65;x74;x72;x79;x3a;x20;x30;x30;x37;x0d; x69;x64;x0d; x64;x61;x74;x61;x3a;x20;x20;x74;x77;x6f;x0d; x0d;
+   x72;x65;x74;x72;x79;x3a;x20;x2b;x35;x0a; x65;x76;x65;x6e;x74;x3a;x20;x64;x72;x6f;x70;x70;x65;x64;x0a; x0a;
+   x64;x61;x74;x61;x3a;x20;x74;x61;x69;x6c].
+Example C15_example :
+  sse_result (feeds sse_stage sse_start (map (fun x => [x]) ex_stream))
+  = Some ([ {| ev_id := Some (of_bytes [x31]); ev_name := of_bytes [x61]; ev_data := of_bytes [x78;x0a;x79] |};
+            {| ev_id := Some (of_bytes [x31]); ev_name := []; ev_data := [] |};
+            {| ev_id := Some []; ev_name := []; ev_data := of_bytes [x20;x74;x77;x6f] |} ],
+          Some [], Some 7%N)
+  /\ sse_spec ex_stream = ([ {| ev_id := Some (of_bytes [x31]); ev_name := of_bytes [x61]; ev_data := of_bytes [x78;x0a;x79] |};
+            {| ev_id := Some (of_bytes [x31]); ev_name := []; ev_data := [] |};
+            {| ev_id := Some []; ev_name := []; ev_data := of_bytes [x20;x74;x77;x6f] |} ],
+          Some [], Some 7%N).
+Proof. vm_compute. split; reflexivity. Qed.
